@@ -31,7 +31,7 @@ Definition fmt_of (tag : Z) : fmt :=
   | 2 => {| f_kinds := [KStr; KStr; KStr]; f_layout := LFastq; f_concat := false; f_nowrite := [2%nat]; f_sid := sid_fields [] |}
   | 3 => {| f_kinds := [KStr; KStr]; f_layout := LFasta2; f_concat := false; f_nowrite := []; f_sid := sid_fields [] |}
   | 4 => {| f_kinds := [KStr; KInt (-1); KStr; KStr; KStr; KStr; KStr; KStr]; f_layout := LDelim; f_concat := true;
-            f_nowrite := [7%nat]; f_sid := sid_fields [0%nat] |}
+            f_nowrite := []; f_sid := sid_fields [0%nat] |}
   | _ => {| f_kinds := [KStr; KInt 0; KStr; KInt 0; KInt 0; KStr; KStr; KInt 0; KInt 0; KStr; KStr; KStr];
             f_layout := LSam; f_concat := true; f_nowrite := []; f_sid := sid_fields [0%nat; 2%nat] |}
   end.
